@@ -186,13 +186,19 @@ class DiffRunner:
         variants = self.spec.variants()
         refs = self.run_batch([(variants[0], self.spec.reference_args(c, variants[0])) for c in cases])
         items, index = [], []
+        own: Dict[int, Dict] = {}
         for ci, (c, ref) in enumerate(zip(cases, refs)):
             if ref is None:
                 continue
             if ref.get("violation"):
-                # the reference itself hit a violation of some property's monitor / a crash: not this check's business
                 k = f"{ref['violation']['property']}:{ref['violation']['sig']}"
                 self.inner_violations[k] = self.inner_violations.get(k, 0) + 1
+                if ref["violation"]["property"] == self.spec.prop:
+                    # this property's own monitor objected inside the reference run: a violation of this check
+                    rv = ref["violation"]
+                    own[ci] = {"property": self.spec.prop, "clause": rv.get("clause"), "sig": rv["sig"], "msg": f"in the reference run: {rv['msg']}", "detail": rv.get("detail") or {}}
+                    continue
+                # (a violation of another property's monitor / a crash in the reference is not this check's business)
             for v in variants[1:]:
                 va = self.spec.variant_args(c, ref, v)
                 if va is None:
@@ -213,6 +219,11 @@ class DiffRunner:
                 viol_by_case.setdefault(ci, viol)
             elif ci not in viol_by_case or any(sig_matches(k2, viol_by_case[ci]) for k2 in self.known):
                 viol_by_case[ci] = viol
+        for ci, viol in own.items():
+            k = next((k for k in self.known if sig_matches(k, viol)), None)
+            if k is not None:
+                self.known_hits.setdefault(k["id"], {"finding": k, "count": 0})["count"] += 1
+            viol_by_case[ci] = viol
         for ci, (c, ref) in enumerate(zip(cases, refs)):
             if ref is not None:
                 out.append((c, ref, viol_by_case.get(ci)))
